@@ -494,10 +494,22 @@ class MementoFunction(MementoFunctionBase):
             as_of_generation=MementoFunction._global_fn_generation, version=version
         )
 
+    def refresh_code_hash(self) -> None:
+        if (
+            self.explicit_version is None
+            and self._constructor_provided_version_code_hash is None
+        ):
+            self.code_hash = fn_code_hash(
+                self.fn,
+                salt=self._constructor_provided_version_salt,
+                environment=ENVIRONMENT_HASH_BYTES,
+            )
+
     def _recompute_version(self):
         """Collect dependencies and [re]compute the version of this function"""
 
-        # Code hash is already computed during construction, so it does not need to be recomputed
+        # The code hash is computed during construction. It is brought up to date by the hash rule
+        # of each memento function that takes part in the version (see compute_hash).
 
         hash_rules = set()  # type: Set[HashRule]
         # Collect dependencies
